@@ -172,7 +172,7 @@ struct ResponseHandler {
     srep: HashMap<Tag, Vec<u8>>,
     cert: HashMap<Tag, Vec<u8>>,
     dele: HashMap<Tag, Vec<u8>>,
-    nonce: Nonce,
+    merkle_leaf: Vec<u8>,
     version: Version,
 }
 
@@ -187,7 +187,7 @@ impl ResponseHandler {
         version: Version,
         pub_key: Option<Vec<u8>>,
         response: RtMessage,
-        nonce: Nonce,
+        merkle_leaf: Vec<u8>,
     ) -> ResponseHandler {
         let msg = response.into_hash_map();
         let srep = RtMessage::from_bytes(&msg[&Tag::SREP])
@@ -206,7 +206,7 @@ impl ResponseHandler {
             srep,
             cert,
             dele,
-            nonce,
+            merkle_leaf,
             version,
         }
     }
@@ -276,7 +276,7 @@ impl ResponseHandler {
         let paths = &self.msg[&Tag::PATH];
 
         let hash = MerkleTree::new(self.version)
-            .root_from_paths(index as usize, &self.nonce, paths);
+            .root_from_paths(index as usize, &self.merkle_leaf, paths);
 
         assert_eq!(
             hash,
@@ -463,7 +463,7 @@ fn main() {
         socket.send_to(request, addr).unwrap();
     }
 
-    for (nonce, _, socket) in requests {
+    for (nonce, request, socket) in requests {
         let duration = time::Duration::from_secs(timeout_secs);
         socket
             .set_read_timeout(Some(duration))
@@ -487,6 +487,13 @@ fn main() {
 
         let resp = receive_response(version, &buf, resp_len);
 
+        // The Merkle tree leaf is the nonce for the Google protocol, and the
+        // entire request (including framing) for the IETF protocol
+        let merkle_leaf = match version {
+            Version::Google => nonce,
+            Version::RfcDraft13 => request,
+        };
+
         if text_dump {
             eprintln!("Response = {}", resp);
         }
@@ -495,7 +502,7 @@ fn main() {
             verified,
             midpoint,
             radius,
-        } = ResponseHandler::new(version, pub_key.clone(), resp.clone(), nonce.clone())
+        } = ResponseHandler::new(version, pub_key.clone(), resp.clone(), merkle_leaf)
             .extract_time();
 
         let map = resp.into_hash_map();
